@@ -104,6 +104,14 @@ def targeted_discs(rng):
                 {3: G.Patch("Q3", [4]), 7: G.Patch("Q7", [9])}, {4: G.Partial("R4", [11, None, 2, None]), 9: G.Partial("R9", [None, 30, None, None])},
                 {11: G.Sample("Kick", W(rng, 5000), mode=0), 2: G.Sample("Snare", W(rng, 4608), mode=2), 30: G.Sample("PadOne", W(rng, 4700), mode=5, cluster_top=1)})
     out.append(("scattered-slots", d3))
+    # performances referenced by more than one volume next to unreferenced ones (S62): as many / more duplicate
+    # references than orphans, so a count of references cannot stand in for the set of referenced performances
+    for tag, vols, nperf in (("shared1+orphan1", [[0], [0, 2]], 5), ("shared2+orphan1", [[0, 1], [1, 0]], 3), ("shared2+orphan2", [[1, 2], [2, 1], []], 4)):
+        smp = {i: G.Sample(f"S{i}", W(rng, rng.choice([300, 4608, 5000])), mode=i % 7, freq=i % 6) for i in range(3)}
+        perfs = {i: G.Performance(f"Perf{i}", [i % 2]) for i in range(nperf) if not (tag == "shared1+orphan1" and i in (1, 3))}
+        d4 = G.Disc([G.Volume(f"Vol{k}", v) for k, v in enumerate(vols)], perfs, {0: G.Patch("Q0", [0]), 1: G.Patch("Q1", [1])},
+                    {0: G.Partial("R0", [0, 1, None, None]), 1: G.Partial("R1", [2, None, None, None])}, smp)
+        out.append((tag, d4))
     return out
 
 
